@@ -4,27 +4,29 @@ C04 (no crash in the merge)."""
 from pyvc.api import *
 from contracts import common
 Kind = spectype("Kind", Atom("Kind"))      # statement types / property names are only compared, hashed and tested for the '%' sentinel here
-S = common.install(kind=Kind, prop=Kind)
+Text = spectype("Text", Atom("Text"))      # comment texts are only stored and moved around in this stage
+S = common.install(kind=Kind, prop=Kind, text=Text)
 Statement, StSer, Shape = S["Statement"], S["StSer"], S["Shape"]
 spectype("Statement", Statement)
 
 ASS = "shexer.core.shexing.strategy.abstract_shexing_strategy:AbstractShexingStrategy"
 MC = "shexer.core.shexing.strategy.abstract_shexing_strategy:MergeableConstraints"
 STQ = common.ST
+NSD = Atom("NamespacesDict")      # the prefix table is only passed through in this stage
 Strategy = schema("Strategy", ["shexer.core.shexing.strategy.direct_shexing_strategy:DirectShexingStrategy",
                                "shexer.core.shexing.strategy.direct_and_inverse_shexing_strategy:DirectAndInverseShexingStrategy"],
     {"_allow_opt_cardinality": Bool, "_all_compliant_mode": Bool, "_disable_exact_cardinality": Bool, "_disable_comments": Bool,
      "_keep_less_specific": Bool, "_discard_useless_positive_closures": Bool, "_tolerance": Real, "_disable_or_statements": Bool,
-     "_allow_redundant_or": Bool, "_instantiation_property_str": Kind, "_namespaces_dict": Dict(Str, Str)})
+     "_allow_redundant_or": Bool, "_instantiation_property_str": Kind, "_namespaces_dict": NSD})
 
 # the text of an informative comment is an (uninterpreted) function of the statement's CURRENT figures and of nothing else
-specfun("comment_text", [Opt(Kind), Card, Real, Int, Bool], Str)
+specfun("comment_text", [Opt(Kind), Card, Real, Int, Bool], Text)
 COMMENT_OF = "comment_text({0}._st_type, {0}._cardinality, {0}._probability, {0}._n_occurences, {0}._is_inverse)"
-contract(STQ + ".comment_representation", params={"namespaces_dict": Dict(Str, Str)}, returns=Str,
+contract(STQ + ".comment_representation", params={"namespaces_dict": NSD}, returns=Text,
     requires=["self._serializer_object is not None"], ensures=["result == " + COMMENT_OF.format("self")], raises=[],
     assume_only=True, verify=False,
     note="comment text depends only on the statement's current type, cardinality, probability, count and direction (serializer contracts: C01 items 8)")
-contract(ASS + "._turn_statement_into_comment", params={"a_statement": Statement, "namespaces_dict": Dict(Str, Str)}, returns=Str,
+contract(ASS + "._turn_statement_into_comment", params={"a_statement": Statement, "namespaces_dict": NSD}, returns=Text,
     requires=["a_statement._serializer_object is not None"], ensures=["result == " + COMMENT_OF.format("a_statement")], raises=[],
     props=["C01", "C03"])
 
@@ -83,7 +85,7 @@ C2 = "ite(self._disable_exact_cardinality and is_int(%s) and card_val(%s) > 1, '
 contract(ASS + "._tune_list_of_valid_statements", params={VS: List(Statement)}, mutates=[VS],
     requires=[DISTINCT.format(VS), HAVE_SER.format(VS)],
     ensures=["len(%s) == len(old(%s))" % (VS, VS),
-             "forall(Int, lambda j: implies(0 <= j and j < len(%s), exists(Int, lambda k: 0 <= k and k < len(old(%s)) and old(%s)[k] == %s[j])))" % (VS, VS, VS, VS),
+             "is_perm(%s, old(%s))" % (VS, VS),      # same statements, reordered (list.sort: assumed permutation)
              "forall(Int, lambda j: implies(0 <= j and j < len(%s), %s[j]._cardinality == %s))" % (VS, VS, C2),
              "forall(Int, lambda j: implies(0 <= j and j < len(%s) and not (self._all_compliant_mode and %s != 1), %s[j]._probability == %s))" % (VS, P0, VS, P0),
              "heap_eq('Statement._n_occurences')", "heap_eq('Statement._st_type')", "heap_eq('Statement._st_property')", "heap_eq('Statement._is_inverse')",
@@ -99,7 +101,7 @@ SerFactory = schema("SerFactory", ["shexer.io.shex.formater.statement_serializer
                     {"_direct_base": StSer, "_inverse_base": StSer, "_direct_choice": StSer, "_inverse_choice": StSer})
 MCT = schema("MC", [MC], {"_constraints": List(Statement), "_bnode_constraint": Opt(Statement), "_shape_constraints": Opt(List(Statement)),
                           "_iri_constraint": Opt(Statement), "_dominant_constraint": Opt(Statement), "_disable_or": Bool,
-                          "_redundant_or_enabled": Bool, "_statement_serializer_factory": Opt(SerFactory), "_namespaces_dict": Opt(Dict(Str, Str))})
+                          "_redundant_or_enabled": Bool, "_statement_serializer_factory": Opt(SerFactory), "_namespaces_dict": Opt(NSD)})
 def IN(lst, x): return "exists(Int, lambda q: 0 <= q and q < len(%s) and %s[q] == %s)" % (lst, lst, x)
 CS = "self._constraints"
 SHL = "some(self._shape_constraints)"
@@ -144,7 +146,7 @@ contract(MC + "._no_bnode_merging_strategy", params={},
     modifies=["MC._dominant_constraint[self]", "MC._constraints[self]"], props=["C04", "C01"],
     note="also when the threshold removed the plain IRI kind and only shape references are left")
 
-contract(MC + ".__init__", params={"initial_constraint": Opt(Statement), "statement_serializer_factory": Opt(SerFactory), "namespaces_dict": Opt(Dict(Str, Str))},
+contract(MC + ".__init__", params={"initial_constraint": Opt(Statement), "statement_serializer_factory": Opt(SerFactory), "namespaces_dict": Opt(NSD)},
     requires=["implies(initial_constraint is not None, has_class(some(initial_constraint), 'Statement') and some(initial_constraint)._serializer_object is not None)"],
     ensures=MC_INV + ["len(%s) == ite(initial_constraint is None, 0, 1)" % CS, "implies(initial_constraint is not None, %s[0] == some(initial_constraint))" % CS,
                       "self._statement_serializer_factory == statement_serializer_factory"],
@@ -152,3 +154,57 @@ contract(MC + ".__init__", params={"initial_constraint": Opt(Statement), "statem
                          "MC._dominant_constraint[self]", "MC._disable_or[self]", "MC._redundant_or_enabled[self]",
                          "MC._statement_serializer_factory[self]", "MC._namespaces_dict[self]"],
     props=["C04", "C02"], note="the constructor establishes the representation invariant (in particular: the shape list exists)")
+
+# ---- small predicates of the selection stage ---------------------------------------------------------------------------
+TWO = {"st1": Statement, "st2": Statement}
+BOTH_ST = ["has_class(st1, 'Statement')", "has_class(st2, 'Statement')"]
+contract(ASS + "._statements_have_same_tokens", params=TWO, returns=Bool, requires=BOTH_ST,
+    ensures=["result == (st1._st_property == st2._st_property and some(st1._st_type) == some(st2._st_type))"], raises=[], props=["C02", "C09"])
+contract(ASS + "._is_a_literal", params={"node_kind_str": Kind}, returns=Bool,
+    ensures=["result == (not node_kind_str.startswith('%') and node_kind_str != 'IRI' and node_kind_str != 'BNode')"], raises=[], props=["C02"])
+contract(ASS + "._statements_have_same_prop_and_are_node_type", params={"original_sentence": Statement, "target_sentence": Statement}, returns=Bool,
+    requires=["has_class(original_sentence, 'Statement')", "has_class(target_sentence, 'Statement')"],
+    ensures=["result == ((some(target_sentence._st_type) == 'IRI' or some(target_sentence._st_type) == 'BNode' or some(target_sentence._st_type).startswith('%'))"
+             " and original_sentence._st_property == target_sentence._st_property)"], raises=[], props=["C02"])
+
+# ---- MergeableConstraints: views and ordering -------------------------------------------------------------------------------
+contract(MC + ".constraints", params={}, yields=Statement, ensures=["list_eq(result, self._constraints)"], raises=[],
+    loops={0: {"invariant": ["len(__yielded__) == _i0", "forall(Int, lambda j: implies(0 <= j and j < _i0, __yielded__[j] == self._constraints[j]))"]}},
+    props=["C02", "C04"])
+contract(MC + ".get", params={"index": Int}, returns=Statement, requires=["0 <= index and index < len(self._constraints)"],
+    ensures=["result == self._constraints[index]"], raises=[], props=["C04"])
+contract(MC + ".__len__", params={}, returns=Int, ensures=["result == len(self._constraints)"], raises=[], props=["C04"])
+PROB = "{0}._probability"
+SORTED = "forall(Int, Int, lambda i, j: implies(0 <= i and i < j and j < len({0}), {0}[i]._probability >= {0}[j]._probability))"
+SAME_ELEMS = ("forall(Int, lambda j: implies(0 <= j and j < len({0}), exists(Int, lambda k: 0 <= k and k < len(old({0})) and old({0})[k] == {0}[j])))",
+              "forall(Int, lambda k: implies(0 <= k and k < len(old({0})), exists(Int, lambda j: 0 <= j and j < len({0}) and {0}[j] == old({0})[k])))")
+contract(MC + ".sort", params={},
+    requires=["self._shape_constraints is not None",
+              "forall(Int, lambda j: implies(0 <= j and j < len(%s), has_class(%s[j], 'Statement')))" % (CS, CS),
+              "forall(Int, lambda j: implies(0 <= j and j < len(%s), has_class(%s[j], 'Statement')))" % (SHL, SHL)],
+    ensures=["len(%s) == len(old(%s))" % (CS, CS), SORTED.format(CS), SAME_ELEMS[0].format(CS), SAME_ELEMS[1].format(CS),
+             "self._shape_constraints is not None", "len(%s) == len(old(%s))" % (SHL, SHL), SORTED.format(SHL),
+             SAME_ELEMS[0].format(SHL), SAME_ELEMS[1].format(SHL)],
+    raises=[], modifies=["MC._constraints[self]", "MC._shape_constraints[self]"], props=["C09", "C04", "C03"],
+    note="descending by probability, same members (list.sort is an assumed stable sort)")
+
+# ---- choice among the cardinalities of one (property, kind): C03 ('+' always offered and preferred), C01 (figures untouched) -----
+GRP = "list_of_candidate_sentences"
+GC = GRP + "._constraints"
+MEMBERS_OK = lambda g: ["forall(Int, lambda j: implies(0 <= j and j < len(%s._constraints), has_class(%s._constraints[j], 'Statement') and %s._constraints[j]._serializer_object is not None))" % (g, g, g),
+                        "%s._shape_constraints is not None" % g,
+                        "forall(Int, lambda j: implies(0 <= j and j < len(some(%s._shape_constraints)), has_class(some(%s._shape_constraints)[j], 'Statement')))" % (g, g)]
+def PLUS(e): return "(%s._cardinality == '+')" % e
+USELESS = ("(len({0}) == 2 and abs_real({0}[0]._probability - {0}[1]._probability) <= self._tolerance and (" + PLUS("{0}[0]") + " != " + PLUS("{0}[1]") + "))")
+contract(ASS + "._is_a_group_of_statements_with_useless_positive_closure", params={GRP: MCT}, returns=Bool,
+    requires=MEMBERS_OK(GRP), ensures=["result == " + USELESS.format(GC)], raises=[],
+    loops={0: {"invariant": ["implies(len(%s) == 2, one_if_there_is_a_single_positive_closure == ite(_i0 == 0, -1, ite(_i0 == 1, ite(%s, 1, -1), ite(%s != %s, 1, -1))))"
+                             % (GC, PLUS(GC + "[0]"), PLUS(GC + "[0]"), PLUS(GC + "[1]")),
+                             "_n0 == len(%s)" % GC, "list_eq(_seq0, %s)" % GC]}},
+    props=["C03"], note="two members, (almost) equal frequency, exactly one of them is the positive closure")
+G2 = "group_of_candidate_statements"
+contract(ASS + "._statement_for_a_group_with_a_useless_positive_closure", params={G2: MCT}, returns=Statement,
+    requires=MEMBERS_OK(G2) + ["exists(Int, lambda j: 0 <= j and j < len(%s._constraints) and not %s)" % (G2, PLUS(G2 + "._constraints[j]"))],
+    ensures=[IN(G2 + "._constraints", "result"), "not " + PLUS("result")], raises=[],
+    loops={0: {"invariant": ["forall(Int, lambda j: implies(0 <= j and j < _i0, %s))" % PLUS("_seq0[j]"), "list_eq(_seq0, %s._constraints)" % G2]}},
+    props=["C03"])
